@@ -267,6 +267,86 @@ impl C11 {
     }
 }
 
+impl C11 {
+    /// kind 2: the waveform seen through the ULA port while the CPU executes code full of contended
+    /// internal cycles (or uncontended code, as control): the pilot's average pulse length must stay
+    /// within [2168, 2200].
+    fn system_waveform(&self, sc: &Scenario, ctx: &mut RunCtx) -> Result<(), Fail> {
+        let m128 = sc.get("m128") != 0;
+        let contended = sc.get("contended") != 0;
+        let cfg = MCfg { m128, fastload: false, sound: false, ..Default::default() };
+        let mut e = new_emu(&cfg);
+        let base: u16 = if contended { 0x6000 } else { 0x8000 };
+        let data: u16 = if contended { 0x5800 } else { 0x9000 };
+        // LD HL,data ; l: INC (HL) ; DEC (HL) ; DJNZ l ; JR l
+        let prog = [0x21, data as u8, (data >> 8) as u8, 0x34, 0x35, 0x10, 0xFC, 0x18, 0xFA];
+        write_mem(&mut e, base, &prog);
+        let mut st = crate::cpustate::CpuState::default();
+        st.pc = base;
+        st.sp = 0x8FF0;
+        st.i = if contended { 0x40 } else { 0x80 };
+        st.to_impl(e.verif_cpu());
+        let blk = tape::std_block(0x00, &[0u8; 17]);
+        e.load_tape(Tape::Tap(AnyAsset::Sim(SimAsset::plain(tape::make_tap(&[blk]))))).map_err(|x| Fail::new("C11.load_tape", "", format!("{:?}", x)))?;
+        e.play_tape();
+        let f = cfg.frame_len() as u64;
+        let frames = sc.get("frames").clamp(4, 60) as u64;
+        let nth = sc.get("nth").clamp(2, 40) as u64;
+        set_break_mode(&mut e, BreakMode::EveryNth(nth));
+        e.set_speed(rustzx_core::EmulationMode::FrameCount(1));
+        let mut frame_no = 0u64;
+        let mut level = 2u8;
+        let mut edges: Vec<u64> = vec![];
+        let mut guard = 0u64;
+        while frame_no < frames && guard < 5_000_000 {
+            guard += 1;
+            match e.emulate_frames(LONG) {
+                Ok(i) => match i.stop_reason {
+                    rustzx_core::EmulationStopReason::Completed => frame_no += 1,
+                    rustzx_core::EmulationStopReason::Breakpoint => frame_no += e.verif_passed_frames() as u64,
+                    _ => {}
+                },
+                Err(x) => return Err(Fail::new("C11.emulate_err", "", format!("{:?}", x))),
+            }
+            // sample EAR through the ULA port (takes a few T-states of emulated time like any port read)
+            let before = e.verif_frame_clocks() as u64;
+            let v = e.verif_bus().read_io(0x7FFE);
+            let after = e.verif_frame_clocks() as u64;
+            if after < before {
+                frame_no += 1;
+            }
+            let now = (v >> 6) & 1;
+            if level != 2 && now != level {
+                edges.push(frame_no * f + after);
+            }
+            level = now;
+        }
+        ctx.sim_t += frames * f;
+        ctx.units += 1;
+        if edges.len() < 50 {
+            return Err(Fail::new("C11.system_waveform", &format!("contended={}", contended as u8), format!("only {} EAR edges seen in {} frames of a playing pilot tone", edges.len(), frames)));
+        }
+        let n = edges.len() as u64 - 1;
+        let avg = (edges[edges.len() - 1] - edges[0]) as f64 / n as f64;
+        // sampling jitter: each edge is observed at most one sampling interval late
+        let jitter = (nth as f64 * 30.0 + 40.0) / n as f64;
+        ctx.probe(if contended { "system_waveform_contended_cpu" } else { "system_waveform_plain_cpu" });
+        if avg < 2168.0 - jitter || avg > 2200.0 + jitter {
+            return Err(Fail::new(
+                "C11.system_waveform",
+                &format!("contended={}", contended as u8),
+                format!("pilot pulses seen by the machine while the CPU runs {} code average {:.1} T over {} pulses (must lie in [2168, 2200])", if contended { "contended-memory" } else { "uncontended" }, avg, n),
+            ));
+        }
+        let mut h = Fnv::new();
+        h.u8(0xED);
+        h.u8(m128 as u8);
+        h.u8(contended as u8);
+        ctx.cover(h.get());
+        Ok(())
+    }
+}
+
 impl Property for C11 {
     fn id(&self) -> &'static str {
         "C11"
@@ -293,11 +373,19 @@ impl Property for C11 {
         vec!["'about one second' is taken as 3.15M..3.85M T (plus one merged pilot pulse)", "component runs observe the EAR level after every step; pulse length = time between observed level changes", "system runs use blocks of at most 300 bytes"]
     }
     fn expected_probes(&self) -> Vec<&'static str> {
-        vec!["block_crosses_refill", "header_pilot", "deck_stopped_at_end", "system_block_loaded", "system_success", "system_failure_outcome"]
+        vec!["block_crosses_refill", "header_pilot", "deck_stopped_at_end", "system_block_loaded", "system_success", "system_failure_outcome", "system_waveform_contended_cpu"]
     }
 
     fn gen(&self, rng: &mut Rng, tier: Tier, idx: u64) -> Scenario {
         let mut sc = Scenario::new();
+        if idx % 26 == 12 {
+            sc.set("kind", 2);
+            sc.set("m128", rng.bool() as i64);
+            sc.set("contended", rng.chance(3, 4) as i64);
+            sc.set("frames", rng.range(6, 14));
+            sc.set("nth", rng.range(3, 12));
+            return sc;
+        }
         let system = idx % 26 == 25;
         sc.set("kind", system as i64);
         sc.set("chunk", *rng.pick(&[0i64, 1, 3, 127, 128, 129]));
@@ -351,10 +439,10 @@ impl Property for C11 {
     }
 
     fn exec(&self, sc: &Scenario, ctx: &mut RunCtx) -> Result<(), Fail> {
-        if sc.get("kind") == 0 {
-            self.component(sc, ctx)
-        } else {
-            self.system(sc, ctx)
+        match sc.get("kind") {
+            0 => self.component(sc, ctx),
+            2 => self.system_waveform(sc, ctx),
+            _ => self.system(sc, ctx),
         }
     }
     fn minimise_budget(&self) -> usize {
